@@ -11,6 +11,7 @@ import (
 	"os"
 	"os/exec"
 	"path/filepath"
+	"strings"
 	"sync/atomic"
 	"time"
 
@@ -68,6 +69,10 @@ func startService(cfg *configv1.Config) (*Service, error) {
 	}
 	cfg.ListenAddress, cfg.ListenPort = "127.0.0.1", int32(freePort())
 	cfg.HealthListenPort = int32(freePort())
+	// a health path nobody else serves: an answer on it proves that OUR process is up (ports are found free and bound
+	// a moment later, and other test processes on this machine do the same)
+	cfg.HealthListenAddress = "127.0.0.1"
+	cfg.HealthListenPath = fmt.Sprintf("/healthz-%d-%d", os.Getpid(), atomic.AddInt64(&svcCounter, 1))
 	if cfg.LogLevel == "" {
 		cfg.LogLevel = "error"
 	}
@@ -114,7 +119,29 @@ func startService(cfg *configv1.Config) (*Service, error) {
 		time.Sleep(30 * time.Millisecond)
 	}
 	// the port may have been answered by ANOTHER process that grabbed it in the meantime, in which case ours fails to
-	// bind and exits: make sure it is still alive a moment later
+	// bind and exits: wait until our own health endpoint answers, then make sure the process is still alive a moment
+	// later and that what listens on the gRPC port speaks gRPC
+	healthURL := fmt.Sprintf("http://127.0.0.1:%d%s", cfg.HealthListenPort, cfg.HealthListenPath)
+	hc := &http.Client{Timeout: 500 * time.Millisecond, Transport: &http.Transport{DisableKeepAlives: true, DialContext: (&net.Dialer{}).DialContext}}
+	for {
+		select {
+		case <-s.exited:
+			return nil, died()
+		default:
+		}
+		if resp, err := hc.Get(healthURL); err == nil {
+			_ = resp.Body.Close()
+			if resp.StatusCode == 200 {
+				break
+			}
+		}
+		if time.Now().After(deadline) {
+			s.Stop()
+			b, _ := os.ReadFile(path + ".log")
+			return nil, fmt.Errorf("service health endpoint did not come up: %s", b)
+		}
+		time.Sleep(30 * time.Millisecond)
+	}
 	select {
 	case <-s.exited:
 		return nil, died()
@@ -126,7 +153,26 @@ func startService(cfg *configv1.Config) (*Service, error) {
 		return nil, err
 	}
 	s.client = envoy.NewAuthorizationClient(s.conn)
+	ctx, cancel := context.WithTimeout(context.Background(), 5*time.Second)
+	_, perr := s.client.Check(ctx, Req{Scheme: "https", Host: "probe.invalid", Path: "/__probe"}.Envoy())
+	cancel()
+	if perr != nil && foreignListener(perr) {
+		s.Stop()
+		return nil, fmt.Errorf("port %d is answered by another process: %v", s.Port, perr)
+	}
+	select {
+	case <-s.exited:
+		return nil, died()
+	default:
+	}
 	return s, nil
+}
+
+// foreignListener recognises the transport errors of a gRPC client that has reached a listener which does not speak
+// gRPC (an HTTP/1.1 server of another test process that was given the same port).
+func foreignListener(err error) bool {
+	m := err.Error()
+	return strings.Contains(m, "error reading server preface") || strings.Contains(m, "looked like an HTTP/1.1 header")
 }
 
 // Check sends one request over gRPC.
@@ -135,6 +181,10 @@ func (s *Service) Check(req Req) *Resp {
 	ctx, cancel := context.WithTimeout(context.Background(), 20*time.Second)
 	defer cancel()
 	resp, err := s.client.Check(ctx, req.Envoy())
+	if err != nil && foreignListener(err) {
+		// not an answer of the service under test: the machinery failed, nothing is known about the property
+		panic(fmt.Sprintf("harness: port %d is answered by something that is not the service under test: %v", s.Port, err))
+	}
 	r.Err = err
 	ParseResp(r, resp)
 	return r
@@ -205,6 +255,9 @@ func (s *Service) CheckRaw(req *envoy.CheckRequest, md map[string]string) *Resp 
 		ctx = metadata.AppendToOutgoingContext(ctx, kv...)
 	}
 	resp, err := s.client.Check(ctx, req)
+	if err != nil && foreignListener(err) {
+		panic(fmt.Sprintf("harness: port %d is answered by something that is not the service under test: %v", s.Port, err))
+	}
 	r.Err = err
 	ParseResp(r, resp)
 	return r
